@@ -202,3 +202,26 @@ type RecIP struct {
 	Kid []*RecIP     `json:"kid,omitempty"`
 	Ip2 *interface{} `json:"ip2,omitempty"`
 }
+
+// GCChurn forces a collection from inside a MarshalText callback and then allocates small objects
+// of many size classes: whatever the collection freed is taken over (and overwritten) before the
+// traversal continues.
+type GCChurn struct{ N int }
+
+var churnSink [][]uintptr
+
+func (g GCChurn) MarshalText() ([]byte, error) {
+	runtime.GC()
+	keep := make([][]uintptr, 0, 600)
+	for _, n := range []int{1, 2, 3, 4, 6, 8, 10, 12, 14, 16, 20, 24, 28, 32, 40, 48, 56, 64} {
+		for i := 0; i < 30; i++ {
+			s := make([]uintptr, n)
+			for j := range s {
+				s[j] = 0x5a5a5a5a5a5a5a5a
+			}
+			keep = append(keep, s)
+		}
+	}
+	churnSink = keep
+	return []byte("churn-" + strconv.Itoa(g.N)), nil
+}
